@@ -21,4 +21,45 @@ PROPS = {
     },
 }
 
+
+def _interp(pid, what, bounded, extra_assume=None, note=None):
+    PROPS[pid] = {
+        "case_modules": ["theories/CasesInterp.v"],
+        "technique": "Coq theorems about the executable interpreter model (follow / loop drivers / Ctx primitives) + differential correspondence: generated programs run on the real decoder (tree taken from the real parser through a verif hook) and on the model by vm_compute, all observables compared",
+        "level_text": what,
+        "level_note": (note or "") + "Unbounded: the theorems (any program, document, context, fuel). Bounded: the correspondence (" + bounded + "). Modelled, not verified: the dependency behaviours listed in DESIGN.md 3.4 (inspectors, assign cascade, vector, x2bytes), Go runtime. Floats are compared as short decimal texts only.",
+        "assumptions": [
+            "dependency behaviour (inspector, testobj_ins, vector, vector_inspector, x2bytes, bytebuf) is as transcribed in coq/theories/Interp.v and Values.v; checked differentially on every run",
+            "generators stay inside the modelled domain: in-range array indexes (D25), no range over childless JSON nodes (KF-C05-childless), floats with at most 15 significant digits, no loop variable aliased into a context variable or []byte field (D24)",
+        ] + (extra_assume or []),
+    }
+
+_interp("C01", "Theorems C01_*: the assign cascade, reached through Ctx.set, puts into a destination of each kind exactly `convert` of the source's text / the source integer narrowed as Go narrows; absent sources leave the field alone or zero it. Tied to the code by running assignment-heavy programs over every source kind x destination kind on the real decoder and in the model.",
+        "220 programs quick / 2500 thorough per seed")
+_interp("C02", "Theorems C02_*: a field write touches one field of one object and nothing else in the context; writes to different fields commute; evaluation of sources is pure. Literal and getter results are values in the model; that the code does not alias them is what the correspondence (all permutations of independent rules, literal lengths 1..33) checks, with a direct oracle on the real decoder comparing all orderings.",
+        "every permutation of 2-4 independent rules, 260 cases quick / 2600 thorough")
+_interp("C03", "Theorems C03_*: a plain condition runs exactly the branch node_cmp selects; the literal-left route through op.Swap decides lit op v (mirror law proved for all six operators, integers and strings, struct / static / vector operands); helper and cond-OK forms branch on the helper's result; the verdict ignores every scratch cell.",
+        "220 programs quick / 2500 thorough")
+_interp("C04", "Theorems C04_*: for valid headers the counter-loop driver equals one body execution per element of Go's counter sequence (int64 wrap included), nothing when the condition is false at entry, the loop variable reading that element in every iteration.",
+        "220 programs quick / 2500 thorough; Go-finite headers only")
+_interp("C05", "Theorems C05_*: in every iteration of a range loop over a vector array or struct slice the key variable reads the index and the value variable the element; without signals the body runs once per element in order; absent sources give zero iterations.",
+        "220 programs quick / 2500 thorough", ["range over an EMPTY JSON array/object, a scalar or a literal null executes one iteration on an unrelated node in the vector dependency: known finding KF-C05-childless, replayed on every run, excluded from the theorems (the model answers EUnsupported)"])
+_interp("C06", "Theorems C06_*: continue / break abandon the rest of the iteration, lazybreak lets it finish; a pending break depth ends each enclosing loop before its next iteration and is consumed one level per loop, survives nested and sibling loops; signals never leave a loop statement.",
+        "260 programs quick / 3000 thorough")
+_interp("C07", "Theorems C07_*: a classic switch runs the body of the first case whose comparison holds and looks at nothing after it; with no match only the first default runs.",
+        "220 programs quick / 2500 thorough")
+_interp("C14", "Theorems C14_*: Reset leaves a new context except the verdict cell bufBl, and lookups, comparisons and argument vectors never read the incoming scratch cells. Job sequences on one context are run on the real decoder and compared job by job with the model and, as a direct oracle, with a newly created context.",
+        "160 job sequences quick / 1800 thorough")
+_interp("C15", "Theorems C15_*: a failing rule ends the rule sequence, the loop body, the counter loop and the range loop at once with its error, and the loop statement returns it; missing helpers and non-numeric bounds are errors. For generated programs every k-th user call is made to fail on the real decoder; oracle: Decode returns that error and the call trace is the fault-free prefix.",
+        "320 runs quick / 4000 thorough (every k up to 12 per program)")
+_interp("C16", "The model has no panic outcome: every list access of the decode path is a guarded match, arity errors are errors (C16_* theorems). That the code has no further panic site is decided by running parser-accepted programs from a malformed stream on the real decoder under recover and a watchdog (direct oracle) and comparing with the model.",
+        "300 programs quick / 4000 thorough",
+        note="PARTIAL on the proof side: Go panics (nil interface, slice bounds inside dependencies) are runtime facts the model cannot exhibit; they are searched for, not proved absent. ")
+_interp("C17", "Theorems C17_*: the vector handed to a function is exactly the list of the written arguments' values, in order, each evaluated on its own (earlier arguments cannot influence later ones); a coalesce source is the first listed key that is present and not null.",
+        "220 programs quick / 2500 thorough")
+_interp("C18", "Theorems C18_*: default / ifThen / ifThenElse by emptiness and truth classes; atoi / atou / atob are strconv's parsers (Gallina re-implementations proved to round-trip with FormatInt / FormatUint on all of int64 / uint64), itoa / utoa format, crc32 is IEEE CRC-32 of the concatenation; arity errors.",
+        "260 programs quick / 3000 thorough; atof is compared on short decimals only", ["strconv and hash/crc32 are re-implemented in Gallina (theories/Strconv.v, Crc.v) and compared with Go's on ~20k strings by harness/sctest.sh"])
+_interp("C19", "Theorems C19_*: Set is update-or-claim over a list read by first match: the latest binding wins, other names are untouched, Reset unbinds, Get of an unbound name is nil, lookups are pure.",
+        "220 job sequences quick / 2500 thorough")
+
 NOT_YET = {}
